@@ -1,5 +1,5 @@
 import PlasVerif.Proofs.IfScan
-import PlasVerif.Spec.TeXTests
+import PlasVerif.Proofs.TeXTests
 /-!
 # C03 — Conditionals process exactly the branch TeX would select
 
@@ -10,7 +10,7 @@ are the Spec (conditional trees of any depth, their spelling, TeX's selection ru
 -/
 namespace PlasVerif.Properties.C03
 open PlasVerif.Model.IfScan PlasVerif.Model.Tests PlasVerif.Spec.CondTree PlasVerif.Spec.TeXTests
-open PlasVerif.Proofs.IfScan
+open PlasVerif.Proofs.IfScan PlasVerif.Proofs.TeXTests
 
 variable {τ α σ : Type}
 
@@ -201,10 +201,22 @@ theorem ifnum_decides (a b : Operand) (r : Rel) (s : St) (v : Bool) (h : texRel 
     ev (.num a r b) s = .ok (.bool v) := by
   cases r <;> simp_all [ev, Rel.cmp, texRel]
 
-/-- `\ifdim a r b` decides TeX's relation on the dimensions (in sp) -/
-theorem ifdim_decides (a b : Int) (r : Rel) (s : St) (v : Bool) (h : texRel r a b = some v) :
+/-- `\ifdim a r b` decides TeX's relation on the dimension operand values (in sp) -/
+theorem ifdim_decides (a b : DOperand) (r : Rel) (s : St) (v : Bool) (h : texRel r (a.val s) (b.val s) = some v) :
     ev (.dim a r b) s = .ok (.bool v) := by
   cases r <;> simp_all [ev, Rel.cmp, texRel]
+
+/-- **Operand values are TeX's.**  Whatever signs stand in front of a literal, a `\value`, a
+    macro-produced number or a count register: the value the tests compare is
+    TeX's ⟨number⟩ (negated iff the number of `-` signs is odd). -/
+theorem operand_value_is_TeX (s : St) (o : Operand) : o.val s = texNumber s o := by
+  simp [Operand.val, texNumber, valS_eq]
+
+example : (Operand.neg (.reg 0)).val ⟨fun _ => 0, fun _ => none, fun _ => false, fun _ => 3, fun _ => 0⟩ = -3 := by rfl
+
+/-- the same for `\ifdim` operands (signs, `\newdimen` registers, integer multiples of them) -/
+theorem dim_operand_value_is_TeX (s : St) (o : DOperand) : o.val s = texDimen s o := by
+  simp [DOperand.val, texDimen, dvalS_eq]
 
 /-- `\ifodd n` is true exactly for odd `n`, negative numbers included (Python's `%` is non-negative for divisor 2) -/
 theorem ifodd_decides (a : Operand) (s : St) : ev (.odd a) s = .ok (.bool (texOdd (a.val s))) := by
@@ -214,7 +226,7 @@ theorem ifodd_decides (a : Operand) (s : St) : ev (.odd a) s = .ok (.bool (texOd
   simp only [bne_iff_ne, ne_eq, beq_iff_eq]
   omega
 
-example : ev (.odd (.lit (-3))) ⟨fun _ => 0, fun _ => none, fun _ => false⟩ = .ok (.bool true) := by rfl
+example : ev (.odd (.lit (-3))) ⟨fun _ => 0, fun _ => none, fun _ => false, fun _ => 0, fun _ => 0⟩ = .ok (.bool true) := by rfl
 
 /-- `\ifcase n` passes the operand value as the selector -/
 theorem ifcase_selector (a : Operand) (s : St) : ev (.case_ a) s = .ok (.case (a.val s)) := rfl
